@@ -135,6 +135,26 @@ func (m *C13Mon) OnBlock(blk *hist.Block) []Finding {
 			}
 		}
 	}
+	// what has matured for a validator (its matured balance plus what it has withdrawn) never exceeds the reward
+	// chunks on its record: a chunk matures once
+	seen := map[string]bool{}
+	for k := range blk.Cur {
+		if !strings.HasPrefix(k, "rwz_") {
+			continue
+		}
+		v := k[4:]
+		if j := strings.LastIndex(v, "_"); j > 0 {
+			v = v[:j]
+		}
+		if seen[v] {
+			continue
+		}
+		seen[v] = true
+		maturedEver := new(big.Int).Add(amountAt(blk.Cur, "rwcum_balance_"+v), amountAt(blk.Cur, "rwcum_withdrawn_"+v))
+		if chunks := sumPrefix(blk.Cur, "rwz_"+v+"_", nil); maturedEver.Cmp(chunks) > 0 {
+			out = append(out, Finding{"C13", "C13/matured-exceeds-credited", fmt.Sprintf("block %d: validator %s has a matured balance of %s and has withdrawn %s; all reward chunks on its record sum to %s", blk.H, v, amountAt(blk.Cur, "rwcum_balance_"+v), amountAt(blk.Cur, "rwcum_withdrawn_"+v), chunks)})
+		}
+	}
 	// withdrawals never exceed what has matured: chunks with index <= H/interval - 1
 	hasIntervals := false
 	for k := range blk.Cur {
